@@ -46,7 +46,7 @@ CONSTANTS MaxOps,                     \* bound on the number of environment oper
                                       \* only these histories are generated (used to re-evaluate given histories
                                       \* under other DEV_ settings, and to replay a recorded case)
 
-AllOps == {"line", "frag", "crlf", "trunc", "rotate", "copytrunc", "delete", "recreate", "nop"}
+AllOps == {"line", "frag", "crlf", "trunc", "rotate", "rotatew", "copytrunc", "delete", "recreate", "nop"}
 ASSUME Ops \subseteq AllOps /\ PreKinds \subseteq {"absent", "empty", "line", "frag"}
 
 Scripts  == IF ScriptFile = "" THEN <<>> ELSE ndJsonDeserialize(ScriptFile)
@@ -106,9 +106,10 @@ vars    == <<files, pathIno, nextIno, tailed, live, gen, fdIno, fiIno, offset, l
 (* Ideal layer *)
 
 AppendOps == {"line", "frag", "crlf"}
-EndOps    == {"trunc", "rotate", "copytrunc", "delete"}   \* a file generation ends
+EndOps    == {"trunc", "rotate", "rotatew", "copytrunc", "delete"}   \* a file generation ends
+WriteOps  == AppendOps \cup {"rotatew"}                               \* operations that carry payload bytes
 
-BytesOf(op, i) == CASE op = "line" -> <<Sym(i), "n">>
+BytesOf(op, i) == CASE op \in {"line", "rotatew"} -> <<Sym(i), "n">>
                     [] op = "crlf" -> <<Sym(i), "r", "n">>
                     [] op = "frag" -> <<Sym(i)>>
                     [] OTHER       -> <<>>
@@ -121,7 +122,7 @@ ExpFold(h, i, e, g) ==
   IF i > Len(h) THEN [closed |-> e, open |-> g]
   ELSE LET o == h[i] IN
        IF o.op \in AppendOps THEN ExpFold(h, i + 1, e, g \o o.bytes)
-       ELSE IF o.op \in EndOps \/ o.op = "stop" THEN ExpFold(h, i + 1, e \o LR!Split(g), <<>>)
+       ELSE IF o.op \in EndOps \/ o.op = "stop" THEN ExpFold(h, i + 1, e \o LR!Split(g), o.bytes)
        ELSE ExpFold(h, i + 1, e, g)
 Expected(h) == LET r == ExpFold(h, 1, <<>>, <<>>) IN r.closed \o LR!SplitNoFinish(r.open)
 
@@ -160,7 +161,7 @@ EnvStep(op, fl, p, nino, e, g) ==
   /\ files' = fl /\ pathIno' = p /\ nextIno' = nino
   /\ exp' = e /\ genBytes' = g
   /\ nops' = nops + 1
-  /\ nsym' = IF op \in AppendOps THEN nsym + 1 ELSE nsym
+  /\ nsym' = IF op \in WriteOps THEN nsym + 1 ELSE nsym
   /\ hist' = Append(hist, [op |-> op, bytes |-> BytesOf(op, nsym + 1)])
   /\ mark' = Len(delivered) /\ ended' = FALSE
   /\ pc' = IF live THEN "wake" ELSE "poll"      \* awaken(streams) wakes every parked stream goroutine
@@ -178,6 +179,11 @@ CopyTruncate == pathIno # 0 /\ EnvStep("copytrunc", [NewFile(files[pathIno]) EXC
                                        pathIno, nextIno + 1, EndGen, <<>>)
 \* mv path path.N ; create path               (the old inode lives on under another name)
 RenameCreate == pathIno # 0 /\ EnvStep("rotate", NewFile(<<>>), nextIno, nextIno + 1, EndGen, <<>>)
+\* mv path path.N ; echo line > path      (the new file already holds a line when it is first seen:
+\* this is why the code reads a new generation from the start)
+RenameCreateWrite == /\ pathIno # 0
+                     /\ LET bs == BytesOf("rotatew", nsym + 1) IN
+                        EnvStep("rotatew", NewFile(bs), nextIno, nextIno + 1, EndGen, bs)
 \* rm path
 Delete      == pathIno # 0 /\ EnvStep("delete", files, 0, nextIno, EndGen, <<>>)
 \* create path (empty)
@@ -185,7 +191,7 @@ Recreate    == pathIno = 0 /\ EnvStep("recreate", NewFile(<<>>), nextIno, nextIn
 Nop         == EnvStep("nop", files, pathIno, nextIno, exp, genBytes)
 
 Env == Write("line") \/ Write("frag") \/ Write("crlf") \/ Truncate \/ CopyTruncate \/ RenameCreate
-       \/ Delete \/ Recreate \/ Nop
+       \/ RenameCreateWrite \/ Delete \/ Recreate \/ Nop
 
 -----------------------------------------------------------------------------
 (* fileStream.stream goroutine, one action per branch of the loop body *)
